@@ -62,7 +62,9 @@ def main():
     notes = os.path.join(sd, 'notes%s.md' % k)
     meta['needs_to_manifest'] = open(notes).read()[:1500] if os.path.exists(notes) else ''
     dst = os.path.join(V, 'seeded', '%s-%s%s' % (pid, suffix, k))
-    if suffix:
+    if '--round' in a:
+        meta['round'] = a[a.index('--round') + 1]
+    elif suffix:
         meta['round'] = 'adversarial: the producer was told what the tester covers (generator ranges, scopes, oracles) and asked to evade it'
     if confirmed:
         try:
